@@ -42,7 +42,7 @@ def run(ctx):
     cl, entries, res = analyse(ctx, fx)
     ctx.floor("entries", 150)
     ctx.floor("closure_fns", 180)
-    ctx.floor("untrusted_sinks", 40)
+    ctx.floor("untrusted_sinks", 35)
     ctx.extra["entry_points"] = len(entries)
     ctx.extra["entry_sample"] = entries[:25]
     ctx.extra["untrusted_struct_fields"] = {"bytes": sorted(cl.summ.reg_buf)[:40], "integers": sorted(cl.summ.reg_scalar)[:60]}
